@@ -620,7 +620,7 @@ func Drive(run *common.Run, prop string, b Budget) {
 			var with []string
 			for i, t := range saved {
 				with = append(with, t)
-				if i < len(res.Frees) && res.Frees[i] >= 0 && !strings.HasPrefix(t, "RT.") {
+				if i < len(res.Frees) && res.Frees[i] >= 0 { // (the one after RT.* is the reading after the return: all free)
 					with = append(with, fmt.Sprintf("TB.%d", res.Frees[i]))
 					run.Extra["limiter_readings_in_model_input"] = maxInt(run.Extra["limiter_readings_in_model_input"], 0) + 1
 				}
